@@ -32,13 +32,19 @@ META = {
 
 def obligations(tier):
     t = 300 if tier == "quick" else 1200
-    obls = [CH("family_latest", H, "family", t, functions=F[1:2], bounds="three additions, version keys from a 3-element table (symbolic indices; symbolic dict keys would be realised)")]
+    obls = [CH("family_latest", H, "family", t, functions=F[1:2], bounds="three additions, modified texts from a 3-element table whose string order differs from the order of the instants (symbolic indices)")]
     for p in range(4):
         obls.append(CH("histories3_p%d" % p, H, "hist3", t, mode="E1s", functions=F, stubs=[FSS], env={"VERIF_PART": str(p)},
                        bounds="first add of id %d; 3 adds from 4 ids x 3 versions; input form rotates over object/dict/list/bundle/JSON text" % p))
     for p in range(5):
         obls.append(CH("histories2_forms_p%d" % p, H, "hist2_forms", t, mode="E1s", functions=F, stubs=[FSS], env={"VERIF_PART": str(p)},
                        bounds="first add in form %d; 2 adds from 4 ids x 3 versions x 5 forms; unversioned object present; with/without save+load" % p))
+    for q in range(10):
+        obls.append(CH("versions_within_one_millisecond_p%d" % q, H, "submillisecond_versions", t, mode="E1s", functions=F + ["stix2.datastore.CompositeDataSource.get"],
+                       stubs=[FSS], env={"VERIF_PART": str(q)},
+                       bounds=("registered type" if q < 5 else "dict-kept type") + ", first input form %d" % (q % 5) + "; 3 additions from 5 modified texts (three instants "
+                              "within one millisecond, one respelled, one later) x input forms; both stores: all_versions = distinct instants, get = greatest, query by "
+                              "instant; composite over single-version sources"))
     obls.append(JOB("version_file_name_injective", "props.j_time", "job_filename_injective", 600, functions=F[9:10] + ["stix2.utils.format_datetime"],
                     stubs=["re.sub of a literal character class modelled as a character filter", "datetime model of props/j_time.py"],
                     bounds="two stored timestamps, all fields and microseconds symbolic, millisecond/min and millisecond/exact (thorough: also any) settings"))
